@@ -95,13 +95,16 @@ def _solve_case(draw):
     P['steps'] = draw(st.integers(1, 5)) if closed else 1
     P['theta'] = 10.0 ** draw(st.floats(-4, 4))         # dt = theta / ||A||
     P['theta_explicit'] = draw(st.floats(0.01, 0.5))
+    flagvar = {ax: draw(st.sampled_from(['both', 'both', 'lo', 'hi'])) for ax in per}     # an axis is periodic as soon as one flag is set
     if closed:
         P['bc'] = gen.noflux_bcs(name, d, per)
+        for ax in per:
+            P['bc'][ax]['periodic'] = flagvar[ax]
         P['u'] = draw(problem.closed_velocity(name, d, per, upw))
     else:
         bc = draw(gen.bcs(name, d, periodic=False))
         for ax in per:
-            bc[ax]['periodic'] = 'both'
+            bc[ax]['periodic'] = flagvar[ax]
         P['bc'] = bc
         u = draw(gen.face_field(d))
         # periodic axes of open problems: same seam treatment as closed ones
@@ -112,6 +115,49 @@ def _solve_case(draw):
 
 def strategy(tier):
     return st.one_of(_op_case(), _op_case(), _solve_case())
+
+
+EXHAUSTIVE_NOTE = ("closed boxes: every grid class x every subset of its periodic-capable axes (not r, not the polar angle) x every way of declaring "
+                   "each periodic axis (lo flag, hi flag, both) x scheme {none, central, upwind, tvd} on a fixed small non-uniform grid with equal end cells")
+ENUM_FACES = dict(x=[0.0, 0.3, 0.7, 1.0], r=[0.5, 0.8, 1.2, 1.5], thc=[0.0, 0.8, 1.7, 2.5], ths=[0.4, 0.9, 1.5, 2.0], ph=[0.0, 1.0, 1.5, 2.5])
+
+
+def enumerate_cases(tier):
+    import itertools
+    for name in GRIDS:
+        kinds = AXES[name]
+        faces = [ENUM_FACES[k] for k in kinds]
+        d = dims_of(faces)
+        nd = len(d)
+        cap = [ax for ax, k in enumerate(kinds) if k not in ('r', 'ths')]
+        for r in range(0, len(cap) + 1):
+            for per in itertools.combinations(cap, r):
+                for flags in itertools.product(('lo', 'hi', 'both'), repeat=len(per)):
+                    for scheme in ('none', 'central', 'upwind', 'tvd'):
+                        upw = scheme in ('upwind', 'tvd')
+                        bc = gen.noflux_bcs(name, d, per)
+                        for ax, fl in zip(per, flags):
+                            bc[ax]['periodic'] = fl
+                        u, D = [], []
+                        for ax, sh in enumerate(face_shapes(d)):
+                            c = gen.expand('generic', 31 + ax, sh)
+                            dd = gen.expand('pos', 41 + ax, sh, 0.2, 2.0)
+                            lo = [slice(None)] * nd
+                            hi = [slice(None)] * nd
+                            lo[ax], hi[ax] = 0, -1
+                            if ax in per and not upw:
+                                c[tuple(hi)] = c[tuple(lo)]
+                            else:
+                                c[tuple(lo)] = 0.0
+                                c[tuple(hi)] = 0.0
+                            if ax in per:
+                                dd[tuple(hi)] = dd[tuple(lo)]
+                            u.append(c.tolist())
+                            D.append(dd.tolist())
+                        P = dict(name=name, faces=faces, scheme=scheme, FL='VanLeer', D=D, u=u, bc=bc, init=gen.expand('generic', 7, d).tolist(),
+                                 alpha=1.0, beta=None, gamma=None, steps=2, theta=3.0, theta_explicit=0.3)
+                        yield dict(kind='solve', closed=True, periodic_axes=list(per), P=P,
+                                   grid=dict(name=name, faces=faces, spacing=['random'] * nd), enumerated=True)
 
 
 def budget(tier):
